@@ -187,6 +187,37 @@ CLAIMED = {
             "ed_on_curve are compared only. Known findings C17-F1..F8 (long scalars; ed_mul_lwreg T coordinate and 1-byte stack overrun; "
             "ed_sub_extnd outside the EXTND build; ed_neg_basic leaves z; ed_upk status).",
             "findings/C17-design.md; findings/C17-1.md"),
+    "C10": ("Translator (45 straight-line tower functions of src/fpx regenerated into Lean on every run and proved equal to the model "
+            "definitions) + Lean 4 proofs (generic polynomial-quotient layer = R[X]/(X^k - c) via evaluation at any root, incl. Mathlib's AdjoinRoot; every "
+            "multiplication / squaring / inversion formula of src/fpx = product of the quotient ring over an abstract commutative ring with the "
+            "non-residue as parameter; sparse, Granger-Scott, Karabina forms under their algebraic preconditions; the stacked fp12 model as "
+            "executed = ring operations after evaluation) + correspondence of every public fpN_* function by name against the generic "
+            "quotient-ring specification on BN-P256, SM9-P256 (both twist types), the plain 256-bit primes (fp2/fp3) and BLS12-381 (thorough)",
+            "Proved in Lean, for all elements and any commutative ring (non-residues as parameters): the specification's layer (schoolbook "
+            "product, folding modulo X^k - c) is the product of R[X]/(X^k - c) with exactly k coefficients, and the p-power map expands over "
+            "coefficients; fp2 mul/sqr (basic and integrated shapes with the qnr loops), fp2_inv, fp2_mul_art, every branch of fp2_mul_nor; "
+            "fp3 mul/sqr/inv/mul_art with the cnr loops; Karatsuba mul, complex / Chung-Hasan sqr, inv and mul_art of every quadratic level "
+            "(fp4/8/12/16/18/48) and cubic level (fp6/9/24/54) return the coefficients of the product / square / inverse; fp6/fp9_mul_dxs and "
+            "fp12_mul_dxs (D- and M-type) equal the full product for sparse operands; fp12_sqr_cyc, fp12_sqr_pck, fp8/16_sqr_cyc and "
+            "fpN_inv_cyc equal the generic operation on the cyclotomic subgroup (six Granger-Scott relations, proved equivalent to "
+            "a*a^(p^4) = a^(p^2)); fp12_back_cyc returns the element in the regular case g2 != 0 and uniqueness of decompression; the fp12 "
+            "model exactly as the driver stacks it over Z/pZ on Nat is carried to ring operations by evaluation at roots of the defining "
+            "polynomials; square-and-multiply = power. PARTIAL / counter-theorem: the exceptional branch (g2 = 0) of fp12_back_cyc does not "
+            "decompress (finding C10-F8, reproduced on the library with constructed operands). Class C (compared with the specification "
+            "only): digit-level lazy reduction, Frobenius through the constant tables, NAF / sparse / simultaneous cyclotomic "
+            "exponentiations (the signed-digit loop and Montgomery's simultaneous inversion are proved as loops), square roots, pck/upk, "
+            "serialisation, the compressed forms above degree 12. Tie: ~6300 lines per quick run (every function variant by name, all alias patterns, zero / one / subfield / sparse / maximal / cyclotomic / order-r "
+            "/ g2 = 0 operands, all Frobenius powers, exponent classes); thorough: ~136000 lines incl. FP_PRIME=381 and the curve families of embedding degree 16/18/24/48/54 (FP_PRIME = 330, 354, 315, "
+            "575, 569) with their full towers.",
+            "Trusted: Lean kernel; tools/translate_fpx.py (accepted fragment listed there; anything else is a translation failure); the fp2 / "
+            "fp3 functions, fp12_mul_dxs and the loops are hand-transcribed and tied by whole-function correspondence only; a "
+            "value-preserving rewrite of a translated C function breaks its `rfl` tie and is reported as a broken obligation; tower constants "
+            "(qnr, cnr, xi, twist type, order) read from the running library and their defining properties checked by the driver; the "
+            "specification's Frobenius uses X^p per level (computed from the definition) plus the proved homomorphism property, cross-checked "
+            "against a^p on sampled lines; towers above degree 12 are exercised only for their prime-independent ring arithmetic on the "
+            "256-bit primes (their Frobenius constants belong to the other field sizes, covered in the thorough tier); known findings "
+            "C10-F1..F10.",
+            "DESIGN.md §5 (C10, to be added by the integrator); lean/RelicVerif/Props/C10.lean header"),
     "C18": ("Translator (selectable field and curve tables extracted from relic_fp_param.c / relic_ep_param.c on every run) + Lean 4 kernel "
             "evaluation of the consistency predicates on the extracted literals + Pratt certificates checked in Lean (soundness proved with "
             "Mathlib's Lucas test) + correspondence of the table with the values the running library reports",
